@@ -75,7 +75,7 @@ func Relocate(err error, filename string, line, col int) error {
 	case *scanner.Error:
 		relocatePos(&e.Pos, filename, line, col)
 	default:
-		panic("todo: " + reflect.TypeOf(err).String())
+		// errors without a position (cl.ErrNoDocFound, I/O errors) are returned as they are
 	}
 	return err
 }
